@@ -138,6 +138,20 @@ class Extract(ast.NodeVisitor):
                 self._expr_no_lambda_bodies(st.test)
                 self.body(st.body, toplevel)
                 self.body(st.orelse, toplevel)
+        elif isinstance(st, ast.Try) and any(
+                h.type is None or any(n in ast.unparse(h.type) for n in ("ImportError", "Exception", "BaseException", "ModuleNotFoundError"))
+                for h in st.handlers):
+            # try: <imports> except ImportError: ...  - a failing import inside does not propagate; the
+            # rest of the try body is skipped and the names stay unbound (order-dependent binding)
+            start = len(self.events)
+            self.body(st.body, toplevel)
+            end = len(self.events)
+            for k in range(start, end):
+                self.events[k] = self.events[k] + ({"guard_end": end},)
+            for h in st.handlers:
+                self.body(h.body, toplevel)
+            self.body(st.orelse, toplevel)
+            self.body(st.finalbody, toplevel)
         elif isinstance(st, (ast.For, ast.While, ast.With, ast.Try)):
             for f in ("iter", "test"):
                 self._expr_no_lambda_bodies(getattr(st, f, None))
@@ -151,6 +165,12 @@ class Extract(ast.NodeVisitor):
             pass
         else:
             self._expr_no_lambda_bodies(st)
+
+
+def guard_end(e):
+    """Index of the first event after the enclosing guarded try body, or None."""
+    last = e[-1]
+    return last["guard_end"] if isinstance(last, dict) else None
 
 
 def programs(repo=REPO_DIR):
@@ -180,6 +200,7 @@ def simulate(mods, progs, loaded, first):
     stack = [first]
     status[first] = 1
     steps = 0
+    skipped = []
     while stack:
         steps += 1
         m = stack[-1]
@@ -192,32 +213,40 @@ def simulate(mods, progs, loaded, first):
             continue
         e = evs[pc[m]]
         t = e[1]
+        ge = guard_end(e)
+        problem = None
         if t not in status:
-            return ("fail", "unknown module %s" % t, steps)
-        if e[0] == "IMPORT":
+            problem = "unknown module %s" % t
+        elif e[0] == "IMPORT":
             if status[t] == 0:
                 status[t] = 1
                 stack.append(t)
-            else:
-                pc[m] += 1
+                continue
         elif e[0] == "FROM":
             if status[t] == 0:
                 status[t] = 1
                 stack.append(t)
+                continue
             elif status[t] == 1:
                 for nm in e[2]:
                     if nm not in progs[t]["defs"] or progs[t]["defs"][nm] > pc[t]:
-                        return ("fail", "%s: cannot import name %s from partially initialised %s" % (m, nm, t), steps)
-                pc[m] += 1
+                        problem = "%s: cannot import name %s from partially initialised %s" % (m, nm, t)
             else:
                 for nm in e[2]:
                     if nm not in progs[t]["defs"] and nm not in mods:
-                        return ("fail", "%s: no name %s in %s" % (m, nm, t), steps)
-                pc[m] += 1
+                        problem = "%s: no name %s in %s" % (m, nm, t)
         else:  # USE
             if status[t] != 2:
-                return ("fail", "%s: chartparse.%s.%s used while %s is not loaded" % (m, t, e[2], t), steps)
+                problem = "%s: chartparse.%s.%s used while %s is not loaded" % (m, t, e[2], t)
+        if problem is None:
             pc[m] += 1
+        elif ge is not None:
+            skipped.append(problem)
+            pc[m] = ge
+        else:
+            return ("fail", problem, steps)
+    if skipped:
+        return ("namediff", "; ".join(skipped), steps)
     return ("ok", "", steps)
 
 
@@ -236,9 +265,12 @@ def encode(mods, progs):
     # static event table: kind (0 END,1 IMPORT,2 FROM,3 USE), target, need (max def position of names,
     # 255 if a name is never defined), static_missing (FROM of a loaded module: name absent)
     table = {}
+    gend = {}
     for m in mods:
         for p, e in enumerate(progs[m]["events"]):
             t = e[1]
+            ge = guard_end(e)
+            gend[(idx[m], p)] = 255 if ge is None else ge
             if t not in idx:
                 table[(idx[m], p)] = (4, 0, 0)          # refers to a missing module: always fails
                 continue
@@ -261,6 +293,7 @@ def encode(mods, progs):
     stack = [[z3.BitVec("sk_%d_%d" % (k, j), BW) for j in range(n)] for k in range(T + 1)]
     sp = [z3.BitVec("sp_%d" % k, BW) for k in range(T + 1)]
     failed = [z3.Bool("failed_%d" % k) for k in range(T + 1)]
+    skipped = [z3.Bool("skipped_%d" % k) for k in range(T + 1)]
     M = z3.BitVec("M", BW)
     # pre-state: L arbitrary dependency-closed, nothing loading; client imports M (unloaded)
     deps = {i: sorted({idx[e[1]] for e in progs[m]["events"] if e[0] in ("IMPORT", "FROM") and e[1] in idx})
@@ -275,7 +308,7 @@ def encode(mods, progs):
         s.add(st[0][i] == z3.If(M == B(i), z3.BitVecVal(1, 2), z3.If(L[i], z3.BitVecVal(2, 2), z3.BitVecVal(0, 2))))
         s.add(pc[0][i] == B(0))
         s.add(stack[0][i] == (M if i == 0 else B(0)))
-    s.add(sp[0] == B(1), z3.Not(failed[0]))
+    s.add(sp[0] == B(1), z3.Not(failed[0]), z3.Not(skipped[0]))
 
     def sel(vec, i_term):
         r = vec[0]
@@ -288,12 +321,13 @@ def encode(mods, progs):
         idle = z3.Or(sp[k] == B(0), failed[k])
         cur_pc = sel(pc[k], top)
         # table lookup
-        kind, tgt, need = B(0), B(0), B(0)
+        kind, tgt, need, gde = B(0), B(0), B(0), B(255)
         for (mi, p), (kd, tg, nd) in table.items():
             c = z3.And(top == B(mi), cur_pc == B(p))
             kind = z3.If(c, B(kd), kind)
             tgt = z3.If(c, B(tg), tgt)
             need = z3.If(c, B(nd), need)
+            gde = z3.If(c, B(gend[(mi, p)]), gde)
         st_t = sel(st[k], tgt)
         pc_t = sel(pc[k], tgt)
         is_end = kind == B(0)
@@ -302,44 +336,80 @@ def encode(mods, progs):
         is_use = kind == B(3)
         is_bad = kind == B(4)
         push = z3.And(z3.Or(is_imp, is_from), st_t == z3.BitVecVal(0, 2))
-        fail_now = z3.Or(
+        problem = z3.Or(
             is_bad,
             z3.And(is_from, st_t == z3.BitVecVal(1, 2), z3.UGT(need, pc_t)),
             z3.And(is_from, st_t == z3.BitVecVal(2, 2), need == B(255)),
             z3.And(is_use, st_t != z3.BitVecVal(2, 2)),
         )
-        advance = z3.And(z3.Not(is_end), z3.Not(push), z3.Not(fail_now))
+        guarded = gde != B(255)
+        fail_now = z3.And(problem, z3.Not(guarded))
+        skip_now = z3.And(problem, guarded)            # caught by `except ImportError`: jump past the try body
+        advance = z3.And(z3.Not(is_end), z3.Not(push), z3.Not(problem))
         parent = sel(stack[k], sp[k] - B(2))
         s.add(failed[k + 1] == z3.Or(failed[k], z3.And(z3.Not(idle), fail_now)))
+        s.add(skipped[k + 1] == z3.Or(skipped[k], z3.And(z3.Not(idle), skip_now)))
         s.add(sp[k + 1] == z3.If(idle, sp[k], z3.If(is_end, sp[k] - B(1), z3.If(push, sp[k] + B(1), sp[k]))))
         for i in range(n):
             bi = B(i)
             new_st = z3.If(z3.And(is_end, top == bi), z3.BitVecVal(2, 2),
                            z3.If(z3.And(push, tgt == bi), z3.BitVecVal(1, 2), st[k][i]))
             s.add(st[k + 1][i] == z3.If(idle, st[k][i], new_st))
-            new_pc = z3.If(z3.And(advance, top == bi), pc[k][i] + B(1),
+            new_pc = z3.If(z3.And(skip_now, top == bi), gde,
+                     z3.If(z3.And(advance, top == bi), pc[k][i] + B(1),
                            z3.If(z3.And(is_end, z3.UGE(sp[k], B(2)), parent == bi), pc[k][i] + B(1),
-                                 z3.If(z3.And(push, tgt == bi), B(0), pc[k][i])))
+                                 z3.If(z3.And(push, tgt == bi), B(0), pc[k][i]))))
             s.add(pc[k + 1][i] == z3.If(idle, pc[k][i], new_pc))
             new_sk = z3.If(z3.And(push, sp[k] == bi), tgt, stack[k][i])
             s.add(stack[k + 1][i] == z3.If(idle, stack[k][i], new_sk))
     # post-state closed under dependencies
     closed = z3.And(*[z3.Implies(st[T][i] == z3.BitVecVal(2, 2), z3.And(*[st[T][j] == z3.BitVecVal(2, 2) for j in deps[i]]))
                       for i in range(n)] + [sel(st[T], M) == z3.BitVecVal(2, 2)])
-    viol = z3.Or(failed[T], sp[T] != B(0), z3.Not(closed))
+    viol = z3.Or(failed[T], skipped[T], sp[T] != B(0), z3.Not(closed))
     return s, viol, L, M, T
 
 
 REPLAY = '''#!/usr/bin/env python
-# Replay C20: import the members of L in dependency order, then M, in a fresh interpreter.
-import os, subprocess, sys
+# Replay C20: in fresh interpreters run (A) the solver's order - members of L in dependency order, then
+# M, then every remaining module - and (B) the reference order (chartparse.chart first, then the rest);
+# the violation reproduces if A fails or binds a different set of public names than B.
+import json, os, subprocess, sys
 REPO = os.environ.get("VERIF_REPO", "/repo")
-prog = %r
-p = subprocess.run([sys.executable, "-c", prog], cwd="/", env={"PYTHONPATH": REPO, "PATH": os.environ.get("PATH", "")},
-                   capture_output=True, text=True)
-print("program:", prog)
-print("exit status", p.returncode, p.stderr.strip().splitlines()[-1:] )
-print("REPRODUCED" if p.returncode != 0 else "NOT-REPRODUCED"); sys.exit(1 if p.returncode != 0 else 0)
+order = %r
+mods = %r
+PROG = """
+import importlib, json, sys
+order = json.loads(sys.argv[1])
+for m in order:
+    importlib.import_module("chartparse." + m)
+out = {}
+for m in sorted(set(order)):
+    mod = sys.modules["chartparse." + m]
+    out[m] = sorted((k, type(v).__name__, getattr(v, "__module__", None) or "", getattr(v, "__qualname__", None) or "")
+                    for k, v in vars(mod).items() if not k.startswith("_"))
+print("NAMES " + json.dumps(out))
+"""
+def run(o):
+    full = list(o) + [m for m in mods if m not in o]
+    p = subprocess.run([sys.executable, "-c", PROG, json.dumps(full)], cwd="/", capture_output=True, text=True,
+                       env={"PYTHONPATH": REPO, "PATH": os.environ.get("PATH", "")})
+    names = None
+    for ln in p.stdout.splitlines():
+        if ln.startswith("NAMES "):
+            names = json.loads(ln[6:])
+    return p.returncode, names, (p.stderr.strip().splitlines() or [""])[-1]
+rcA, namesA, errA = run(order)
+rcB, namesB, errB = run(["chart"])
+print("order A:", order, "-> exit", rcA, errA)
+print("order B: chart first -> exit", rcB, errB)
+bad = rcA != 0 or rcB != 0
+if not bad and namesA != namesB:
+    bad = True
+    for m in namesA:
+        a, b = set(map(tuple, namesA[m])), set(map(tuple, namesB.get(m, [])))
+        if a != b:
+            print("module", m, "binds different public names:", sorted(a ^ b)[:8])
+print("REPRODUCED" if bad else "NOT-REPRODUCED"); sys.exit(1 if bad else 0)
 '''
 
 
@@ -377,7 +447,7 @@ def check(timeout=300, **kw):
         sim = simulate(mods, progs, set(), m)
         ok, prog, err = fresh_import([m])
         validated += 1
-        if (sim[0] == "ok") != ok:
+        if (sim[0] in ("ok", "namediff")) != ok:
             disagreements.append((m, sim, err))
     s, viol, L, M, T = encode(mods, progs)
     s.set("timeout", int(timeout * 1000))
@@ -397,7 +467,7 @@ def check(timeout=300, **kw):
         prog = "; ".join("import %s.%s" % (PKG, m) for m in order)
         sim = simulate(mods, progs, set(Lset), mods[Mi])
         res.update(verdict="candidate", detail="L=%s then import %s: model says %s" % (Lset, mods[Mi], sim[:2]),
-                   call=prog, replay_src=REPLAY % prog)
+                   call=prog, replay_src=REPLAY % (order, mods))
         return res
     s.pop()
     # vacuity: the premises (some closed L and unloaded M, run to completion) are satisfiable
